@@ -452,7 +452,9 @@ Inductive acon :=
 | ANull
 | ALeaf (k : constr)
 | AAnd (a b : acon)
-| AOr (a b : acon).
+| AOr (a b : acon)
+| AAlt (a b : acon).   (* AlternativesConstraint: the constraints carried by the members of a union value;
+                         applied like an OR, but its inverse is again a disjunction *)
 
 Definition from_list (l : list constr) : constr :=
   match l with [c] => c | _ => KAllOf l end.
@@ -463,6 +465,12 @@ Fixpoint apply_acon (a : acon) : list constr :=
   | ALeaf k => [k]
   | AAnd a b => apply_acon a ++ apply_acon b
   | AOr a b =>
+      match apply_acon a, apply_acon b with
+      | [], _ => []
+      | _, [] => []
+      | ga, gb => [KOneOf [from_list ga; from_list gb]]
+      end
+  | AAlt a b =>     (* OrConstraint(self.constraints).apply() *)
       match apply_acon a, apply_acon b with
       | [], _ => []
       | _, [] => []
@@ -487,6 +495,7 @@ Fixpoint invert (a : acon) : acon :=
   | ALeaf k => ALeaf (flip k)
   | AAnd a b => AOr (invert a) (invert b)
   | AOr a b => AAnd (invert a) (invert b)
+  | AAlt a b => AAlt (invert a) (invert b)
   end.
 
 Definition apply_all (ks : list constr) (v : value) : value :=
@@ -541,6 +550,7 @@ Inductive cond :=
 | CMapIs (po : bool)                        (* mapping pattern, part 1: x is a Mapping *)
 | CMapKeys (kps : list (elt * epat))        (* mapping pattern, part 2: keys present and value subpatterns *)
 | CPAnd (a b : cond)                        (* conjunction of the parts of one pattern (in source order) *)
+| CIfExp (flag : bool) (a b : cond)         (* `(a) if f() else (b)`: a union-valued condition; flag = the run-time value of f() *)
 | CAssertInst (c : cls)                     (* the statement assert_is_instance(x, c) went through *)
 | CAssertIs (l : obj)                       (* assert_is(x, l) went through (assert_is_not: CNot) *)
 | CHasAttr (name : N) (b : bool)            (* hasattr(x, "name") (run-time value b) *)
@@ -579,6 +589,7 @@ Fixpoint cond_acon (c : cond) : acon :=
   | CMapIs po => ALeaf (KPred (PIsAssignable [VGen GMapPat] po) true)
   | CMapKeys _ => ANull
   | CPAnd a b => AAnd (cond_acon a) (cond_acon b)
+  | CIfExp _ a b => AAlt (cond_acon a) (cond_acon b)
   | CAssertInst c => ALeaf (KIsInstance c true)
   | CAssertIs l => ALeaf (KIsValue l true)
   | CHasAttr n _ => ALeaf (KAddAnnot n true)
@@ -627,6 +638,7 @@ Fixpoint tested (c : cond) : value :=
   | CMapIs _ => [plain (VGen GMapPat)]
   | CMapKeys _ => []
   | CPAnd a b => tested a ++ tested b
+  | CIfExp _ a b => tested a ++ tested b
   | CAssertInst c => [plain (VTyped c)]
   | CAssertIs l => [plain (VKnown l)]
   | CHasAttr _ _ => []
@@ -684,6 +696,7 @@ Fixpoint holds (c : cond) (o : obj) : option bool :=
       | Some true => holds b o
       | r => r
       end
+  | CIfExp flag a b => if flag then holds a o else holds b o
   | CAssertInst c => Some (isinst o c)
   | CAssertIs l => Some (obj_eqb o l)
   | CHasAttr _ b => Some b
@@ -745,7 +758,7 @@ Definition interp (r : pres) (s : sval) (pattern : list sval) : list sval :=
 Inductive cmpkind := KIs | KIsNot | KEq | KNotEq | KIn | KNotIn.
 Inductive pkind := PKEquals (use_is : bool) | PKIn.
 Inductive wrapkind := WTyped | WSub.
-Inductive ackind := IsAnd | IsOr.
+Inductive ackind := IsAnd | IsOr | IsAlt.
 Inductive eres := EDrop | EValue | ELiteral | EBoolCompl | EEnumCompl.
 Inductive ires := IDrop | IValue | IAcceptable | IEnumCompl.
 
